@@ -3,7 +3,8 @@
 //! `CapAt`, and `ReadBuffer`).  Property C19.
 //!
 //! Stateful line protocol (model side: `lean/Tw/Drv/Buffer.lean`):
-//!   new <vec|arr|slice|sref> <cap> <oldhex>     fresh container, starts a session
+//!   new <vec|arr|slice|sref|raw> <cap> <oldhex> fresh container, starts a session (`raw`: a slice and a
+//!                       counter owned by the harness, viewed through `BufferRef::new`; cannot be capped)
 //!   open [c1 [c2]]      with_buffer(x.cap_at(c1).cap_at(c2), |b| …) on the container / innermost view
 //!   w <hex>             b.write(..)
 //!   xr <byte> <n>       b.extend(iter::repeat(byte).take(n))
@@ -11,7 +12,7 @@
 //!   adv <n> <byte>      fill min(n, remaining) bytes of uninitialized_mut(), then b.advance(n)
 //!   rem                 b.remaining()
 //!   init | drop         the closure returns b.initialized() / returns without using the view
-//!   setr <reader>       slice <hex> | rep <byte> | empty | take <n> R | chain R R | liar <n> <byte> | fail <byte>
+//!   setr <reader>       slice <hex> | rep <byte> | empty | take <n> R | chain R R | bufr <cap> R | liar <n> <byte> | fail <byte>
 //!   read [c1 [c2]]      reader.read_buffer(x.cap_at(c1).cap_at(c2))
 //!   hash <kind> <cap> <oldhex> <L> / op / op …   all op sequences of length L over the alphabet
 //!
@@ -50,6 +51,7 @@ enum RdrSpec {
     Chain(Box<RdrSpec>, Box<RdrSpec>),
     Liar(usize, u8),
     Fail(u8),
+    BufR(usize, Box<RdrSpec>),
 }
 
 #[derive(Clone, Debug)]
@@ -96,6 +98,14 @@ fn parse_rdr<'a>(fuel: usize, t: &'a [&'a str]) -> Option<(RdrSpec, &'a [&'a str
             let n = parse_usize(t[1])?;
             let (r, rest) = parse_rdr(fuel - 1, &t[2..])?;
             Some((RdrSpec::Take(n, Box::new(r)), rest))
+        }
+        "bufr" if t.len() >= 2 => {
+            let n = parse_usize(t[1])?;
+            if n > 4096 {
+                return None;
+            }
+            let (r, rest) = parse_rdr(fuel - 1, &t[2..])?;
+            Some((RdrSpec::BufR(n, Box::new(r)), rest))
         }
         "chain" => {
             let (a, rest) = parse_rdr(fuel - 1, &t[1..])?;
@@ -148,6 +158,7 @@ enum AnyRdr {
     Empty(io::Empty),
     Take(io::Take<Box<AnyRdr>>),
     Chain(io::Chain<Box<AnyRdr>, Box<AnyRdr>>),
+    BufR(io::BufReader<Box<AnyRdr>>),
     /// fills the whole buffer and claims to have read `.0` bytes
     Liar(usize, u8),
     /// fills the whole buffer and fails
@@ -163,6 +174,7 @@ fn build_rdr(s: &RdrSpec) -> AnyRdr {
         RdrSpec::Chain(a, b) => AnyRdr::Chain(Box::new(build_rdr(a)).chain(Box::new(build_rdr(b)))),
         RdrSpec::Liar(c, f) => AnyRdr::Liar(*c, *f),
         RdrSpec::Fail(f) => AnyRdr::Fail(*f),
+        RdrSpec::BufR(n, r) => AnyRdr::BufR(io::BufReader::with_capacity(*n, Box::new(build_rdr(r)))),
     }
 }
 
@@ -171,6 +183,7 @@ fn has_liar(s: &RdrSpec) -> bool {
         RdrSpec::Liar(..) => true,
         RdrSpec::Take(_, r) => has_liar(r),
         RdrSpec::Chain(a, b) => has_liar(a) || has_liar(b),
+        RdrSpec::BufR(_, r) => has_liar(r),
         _ => false,
     }
 }
@@ -188,6 +201,7 @@ impl Read for AnyRdr {
             AnyRdr::Empty(r) => r.read(buf),
             AnyRdr::Take(r) => r.read(buf),
             AnyRdr::Chain(r) => r.read(buf),
+            AnyRdr::BufR(r) => r.read(buf),
             AnyRdr::Liar(c, f) => {
                 LIAR_CALLED.with(|l| l.set(true));
                 for b in buf.iter_mut() {
@@ -243,6 +257,8 @@ enum Phase {
     Iter,
     /// inside `read_buffer`; `exceeds` as for `Open`
     Read { exceeds: bool },
+    /// inside `BufferRef::new`; `nonzero`: the caller's counter is not 0
+    RawNew { nonzero: bool },
 }
 
 thread_local! {
@@ -342,16 +358,11 @@ fn check_kept(cx: &mut Cx, kept: &[(&[u8], Vec<u8>)]) {
     }
 }
 
-/// `reader.read_buffer(buf.cap_at(..))` with the session's reader; `avail` is what the property
-/// says `buf` has room for
-fn read_on<'d, B: Buffer<'d>>(buf: B, caps: &[usize], cx: &mut Cx, avail: usize) -> Exit<'d> {
-    let room = capped(avail, caps);
-    cx.phase = Phase::Read { exceeds: exceeds(avail, caps) };
-    LIAR_CALLED.with(|l| l.set(false));
-    // A reader that claims more than the room it was given must be refused by `advance`'s assert.
-    // Look at that on a scratch slice first, through `BufferRef::new` with a counter the harness
-    // owns: were the counter to move past the capacity, the real call would end in a destructor
-    // running `set_len` beyond the capacity (std aborts the process there).
+/// A reader that claims more than the room it was given must be refused by `advance`'s assert.
+/// Look at that on a scratch slice first, through `BufferRef::new` with a counter the harness owns:
+/// were the counter to move past the capacity, the real call would end in a destructor running
+/// `set_len` beyond the capacity (std aborts the process there).
+fn liar_probe(cx: &mut Cx, room: usize) {
     if has_liar(&cx.rdr_spec) {
         // a copy of the reader in its current state: rebuilt and fed the same sequence of reads
         let mut copy = build_rdr(&cx.rdr_spec);
@@ -374,6 +385,19 @@ fn read_on<'d, B: Buffer<'d>>(buf: B, caps: &[usize], cx: &mut Cx, avail: usize)
             cx.src.corrupt(&mut cx.fails, &mut cx.counts)
         }
     }
+}
+
+/// `reader.read_buffer(buf.cap_at(..))` with the session's reader; `avail` is what the property
+/// says `buf` has room for
+fn read_on<'d, B: Buffer<'d>>(buf: B, caps: &[usize], cx: &mut Cx, avail: usize) -> Exit<'d> {
+    let room = capped(avail, caps);
+    cx.phase = Phase::Read { exceeds: exceeds(avail, caps) };
+    LIAR_CALLED.with(|l| l.set(false));
+    // A reader that claims more than the room it was given must be refused by `advance`'s assert.
+    // Look at that on a scratch slice first, through `BufferRef::new` with a counter the harness
+    // owns: were the counter to move past the capacity, the real call would end in a destructor
+    // running `set_len` beyond the capacity (std aborts the process there).
+    liar_probe(cx, room);
     cx.read_sizes.push(room);
     // what an honest simple reader must deliver
     let expect: Option<Vec<u8>> = match &cx.rdr {
@@ -407,6 +431,30 @@ fn read_on<'d, B: Buffer<'d>>(buf: B, caps: &[usize], cx: &mut Cx, avail: usize)
                 if s != &e[..] {
                     cx.fail("C19/read-bytes-differ", format!("read_buffer returned {}, the reader delivered {}", to_hex(s), to_hex(&e)));
                 }
+            }
+            cx.count("reads_ok");
+            Exit { resp: format!("read {}", to_hex(s)), log: s.to_vec(), kept: vec![(s, s.to_vec())] }
+        }
+        Err(_) => {
+            cx.count("reads_err");
+            Exit { resp: "readerr".to_string(), log: vec![], kept: vec![] }
+        }
+    }
+}
+
+/// `reader.read_buffer_ref(b)` on a caller-owned `BufferRef` (the object-safe entry point)
+fn raw_read<'d>(v: BufferRef<'d, '_>, cx: &mut Cx, avail: usize) -> Exit<'d> {
+    use libtw2_buffer::ReadBufferRef;
+    cx.phase = Phase::Read { exceeds: false };
+    LIAR_CALLED.with(|l| l.set(false));
+    liar_probe(cx, avail);
+    cx.read_sizes.push(avail);
+    let r = cx.rdr.read_buffer_ref(v);
+    cx.phase = Phase::Idle;
+    match r {
+        Ok(s) => {
+            if s.len() > avail {
+                cx.fail("C19/read-past-capacity", format!("read_buffer_ref returned {} bytes, room was {}", s.len(), avail));
             }
             cx.count("reads_ok");
             Exit { resp: format!("read {}", to_hex(s)), log: s.to_vec(), kept: vec![(s, s.to_vec())] }
@@ -460,6 +508,11 @@ fn view_loop<'d>(mut v: BufferRef<'d, '_>, cx: &mut Cx, room: usize) -> Exit<'d>
     };
     if cap0 != room {
         cx.fail("C19/view-capacity", format!("new view has remaining()={}, expected min(available, caps)={}", cap0, room));
+        if cap0 > room {
+            // the view claims room the container does not have: a write through it would go past
+            // the allocation — do not use it (and do not run the destructors)
+            cx.src.corrupt(&mut cx.fails, &mut cx.counts)
+        }
     }
     cx.ghosts.push(Ghost { cap: cap0, log: vec![] });
     let depth = cx.ghosts.len();
@@ -629,6 +682,9 @@ macro_rules! arrs {
             }
             fn contents(&self) -> &[u8] { match self { $(Arr::$v(a) => &a[..]),* } }
             fn capacity(&self) -> usize { match self { $(Arr::$v(a) => a.capacity()),* } }
+            fn probe(&mut self) -> Option<usize> {
+                match self { $(Arr::$v(a) => catch(|| with_buffer(&mut *a, |b| b.remaining())).ok()),* }
+            }
             fn act<'d>(&'d mut self, act: &Act, cx: &mut Cx, avail: usize) -> Exit<'d> {
                 match self { $(Arr::$v(a) => act_on(a, act, cx, avail)),* }
             }
@@ -659,6 +715,8 @@ enum Store {
     Slice(Vec<u8>, usize),
     /// the same for `&mut &mut [u8]`; `.1` is the current length of the (narrowed) slice
     SRef(Vec<u8>, usize),
+    /// `BufferRef::new(&mut back[..n], &mut counter)`: `.1` = n, `.2` = the caller-owned counter
+    Raw(Vec<u8>, usize, usize),
 }
 
 #[derive(Clone, Debug)]
@@ -677,7 +735,7 @@ fn parse_store(k: &str, c: &str, o: &str) -> Option<StoreSpec> {
     match k {
         "vec" if old.len() <= cap => {}
         "arr" if old.len() <= cap && ARR_CAPS.contains(&cap) => {}
-        "slice" | "sref" if old.len() == cap => {}
+        "slice" | "sref" | "raw" if old.len() == cap => {}
         _ => return None,
     }
     Some(StoreSpec { kind: k.to_string(), cap, old })
@@ -697,6 +755,11 @@ impl Store {
                 b.extend_from_slice(&CANARY);
                 Store::Slice(b, s.cap)
             }
+            "raw" => {
+                let mut b = s.old.clone();
+                b.extend_from_slice(&CANARY);
+                Store::Raw(b, s.cap, 0)
+            }
             _ => {
                 let mut b = s.old.clone();
                 b.extend_from_slice(&CANARY);
@@ -710,6 +773,7 @@ impl Store {
             Store::Arr(a) => a.contents(),
             Store::Slice(b, n) => &b[..*n],
             Store::SRef(b, n) => &b[..*n],
+            Store::Raw(b, n, c) => &b[..(*c).min(*n)],
         }
     }
     /// room a new top-level view has according to the property
@@ -719,6 +783,29 @@ impl Store {
             Store::Arr(a) => a.capacity() - a.contents().len(),
             Store::Slice(_, n) => *n,
             Store::SRef(_, n) => *n,
+            Store::Raw(_, n, c) => *n - (*c).min(*n),
+        }
+    }
+    /// `remaining()` of a fresh outermost view that is dropped unused (its destructor adds 0):
+    /// lets the harness see an over-sized view before anything is written through it
+    fn probe_room(&mut self) -> Option<usize> {
+        match self {
+            Store::Vec(v) => catch(|| with_buffer(&mut *v, |b| b.remaining())).ok(),
+            Store::Arr(a) => a.probe(),
+            Store::Slice(b, n) => catch(|| with_buffer(&mut b[..*n], |b| b.remaining())).ok(),
+            Store::SRef(b, n) => {
+                // on a temporary reference: the narrowing to 0 bytes hits only the temporary
+                let mut s: &mut [u8] = &mut b[..*n];
+                let p: *mut &mut [u8] = &mut s;
+                catch(|| with_buffer(unsafe { &mut *p }, |b| b.remaining())).ok()
+            }
+            Store::Raw(b, n, c) => {
+                if *c != 0 {
+                    return Some(*n - (*c).min(*n));
+                }
+                let mut tmp = 0usize;
+                catch(|| BufferRef::new(&mut b[..*n], &mut tmp).remaining()).ok()
+            }
         }
     }
     fn ctx(&self) -> String {
@@ -739,6 +826,7 @@ impl Store {
                     let allowed = match cx.phase {
                         Phase::Advance { exceeds } => exceeds,
                         Phase::Iter => msg.contains("c19 iterator panics"),
+                        Phase::RawNew { nonzero } => nonzero,
                         Phase::Read { exceeds } => {
                             let liar = LIAR_CALLED.with(|l| l.get());
                             if !liar && exceeds {
@@ -777,6 +865,22 @@ impl Store {
             }
             Store::Slice(b, n) => {
                 let r = catch(|| act_on(&mut b[..*n], act, cx, avail));
+                finish(cx, r)
+            }
+            Store::Raw(b, n, c) => {
+                let nonzero = *c != 0;
+                let r = catch(|| {
+                    // `debug_assert!(*initialized == 0)`: a counter that is not 0 is refused
+                    cx.phase = Phase::RawNew { nonzero };
+                    let v = BufferRef::new(&mut b[..*n], &mut *c);
+                    match act {
+                        Act::Open(_) => view_loop(v, cx, avail),
+                        Act::Read(_) => raw_read(v, cx, avail),
+                    }
+                });
+                if r.is_ok() && nonzero {
+                    cx.fail("C19/raw-counter-not-zero", "BufferRef::new accepted a counter that is not 0".to_string());
+                }
                 finish(cx, r)
             }
             Store::SRef(b, n) => {
@@ -826,6 +930,10 @@ fn store_loop(spec: &StoreSpec, src: &mut dyn Src, announce: bool) {
             None => break,
         };
         match op {
+            Op::Open(caps) | Op::Read(caps) if spec.kind == "raw" && !caps.is_empty() => {
+                let _ = caps;
+                cx.emit("bad-op", &store.ctx())
+            }
             Op::Open(caps) => store_act(&mut store, &Act::Open(caps), &mut cx, spec),
             Op::Read(caps) => store_act(&mut store, &Act::Read(caps), &mut cx, spec),
             Op::SetR(s) => {
@@ -846,6 +954,14 @@ fn store_loop(spec: &StoreSpec, src: &mut dyn Src, announce: bool) {
 fn store_act(store: &mut Store, act: &Act, cx: &mut Cx, spec: &StoreSpec) {
     let old = store.contents().to_vec();
     let avail = store.avail();
+    let probed = store.probe_room();
+    if probed != Some(avail) {
+        cx.fail("C19/view-capacity", format!("a fresh view of the container has remaining()={:?}, the container has room for {}", probed, avail));
+        if probed.map(|p| p > avail).unwrap_or(false) {
+            // writes through such a view would go past the allocation
+            cx.src.corrupt(&mut cx.fails, &mut cx.counts)
+        }
+    }
     let (resp, log) = store.act(act, cx);
     if let Store::Vec(v) = store {
         if v.len() > v.capacity() {
@@ -887,6 +1003,19 @@ fn store_act(store: &mut Store, act: &Act, cx: &mut Cx, spec: &StoreSpec) {
                 if new.len() == old.len() && new[room..] != old[room..] {
                     cx.fail("C19/write-past-capacity", format!("bytes beyond cap {} changed: {} -> {}", room, to_hex(&old), to_hex(&new)));
                 }
+            }
+        }
+        Store::Raw(b, n, c) => {
+            if *c > *n {
+                cx.fail("C19/write-past-capacity", format!("the caller's counter {} exceeds the slice length {}", c, n));
+            }
+            if new.len() != old.len() + log.len() {
+                cx.fail("C19/length-grows-by-initialized", format!("counter {} -> {}, {} bytes were committed", old.len(), new.len(), log.len()));
+            } else if new[..old.len()] != old[..] || new[old.len()..] != log[..] {
+                cx.fail("C19/contents-old-plus-initialized", format!("old {} + committed {} but contents {}", to_hex(&old), to_hex(&log), to_hex(&new)));
+            }
+            if b[*n..] != CANARY {
+                cx.fail("C19/write-past-capacity", "bytes after the end of the slice changed".to_string());
             }
         }
         Store::SRef(b, _) => {
@@ -1173,14 +1302,19 @@ impl Runner for R {
 // ---------------------------------------------------------------------------------------------
 // generator
 
-const KINDS: [&str; 4] = ["vec", "arr", "slice", "sref"];
+const KINDS: [&str; 5] = ["vec", "arr", "slice", "sref", "raw"];
+
+/// kinds whose capacity is the length of the given bytes
+fn is_slicey(kind: &str) -> bool {
+    kind == "slice" || kind == "sref" || kind == "raw"
+}
 
 fn pat(n: usize, start: u8) -> Vec<u8> {
     (0..n).map(|i| start.wrapping_add(i as u8)).collect()
 }
 
 fn new_line(out: &mut dyn Write, kind: &str, cap: usize, len: usize) {
-    let len = if kind == "slice" || kind == "sref" { cap } else { len.min(cap) };
+    let len = if is_slicey(kind) { cap } else { len.min(cap) };
     writeln!(out, "new {} {} {}", kind, cap, to_hex(&pat(len, 0xa0))).unwrap();
 }
 
@@ -1195,7 +1329,26 @@ fn rdr_str(r: &mut Rng, depth: usize) -> String {
         3 => "empty".to_string(),
         4 => format!("fail {:02x}", r.below(256)),
         5 | 6 => format!("take {} {}", r.below(10), rdr_str(r, depth + 1)),
-        7 => format!("chain {} {}", rdr_str(r, depth + 1), rdr_str(r, depth + 1)),
+        7 => {
+            if r.chance(1, 2) {
+                format!("chain {} {}", rdr_str(r, depth + 1), rdr_str(r, depth + 1))
+            } else {
+                // no over-claiming reader inside a BufReader (std's cursor refuses it in its own way)
+                let inner = match r.below(4) {
+                    0 => "rep 3c".to_string(),
+                    1 => format!("take {} rep 3d", r.below(9)),
+                    2 => {
+                        let n = r.below(14) as usize;
+                        format!("chain slice {} fail 3e", to_hex(&r.bytes(n)))
+                    }
+                    _ => {
+                        let n = r.below(14) as usize;
+                        format!("slice {}", to_hex(&r.bytes(n)))
+                    }
+                };
+                format!("bufr {} {}", r.below(7), inner)
+            }
+        }
         _ => format!("liar {} {:02x}", r.below(12), r.below(256)),
     }
 }
@@ -1229,7 +1382,7 @@ fn random_session(r: &mut Rng, out: &mut dyn Write, max_cap: usize, nops: usize)
     let cap = if kind == "arr" { *r.pick(&ARR_CAPS[..]).min(&max_cap.max(8)) } else { r.below(max_cap as u64 + 1) as usize };
     let len = r.below(cap as u64 + 1) as usize;
     new_line(out, kind, cap, len);
-    let mut store_room = if kind == "slice" || kind == "sref" { cap } else { cap - len.min(cap) };
+    let mut store_room = if is_slicey(kind) { cap } else { cap - len.min(cap) };
     let mut rooms: Vec<usize> = vec![];
     for _ in 0..nops {
         let depth = rooms.len();
@@ -1331,8 +1484,8 @@ fn random_session(r: &mut Rng, out: &mut dyn Write, max_cap: usize, nops: usize)
 }
 
 /// hand-written scenarios of the property text, for one container shape
-fn scripted(out: &mut dyn Write, kind: &str, cap: usize, len: usize) {
-    let room = if kind == "slice" || kind == "sref" { cap } else { cap - len.min(cap) };
+fn scripted(out: &mut dyn Write, kind: &str, cap: usize, len: usize, lite: bool) {
+    let room = if is_slicey(kind) { cap } else { cap - len.min(cap) };
     let mut s = |lines: &[String]| {
         new_line(out, kind, cap, len);
         for l in lines {
@@ -1349,7 +1502,8 @@ fn scripted(out: &mut dyn Write, kind: &str, cap: usize, len: usize) {
     // dropped without use; used and dropped without `initialized`
     s(&[l("open"), l("drop"), l("open"), w(room / 2, 1), l("drop"), l("open"), l("init")]);
     // capped views, including caps beyond the capacity
-    for c in [0, 1, room.saturating_sub(1), room, room + 1, room + 4, usize::MAX] {
+    let caps: Vec<usize> = if lite { vec![0, room, room + 1, usize::MAX] } else { vec![0, 1, room.saturating_sub(1), room, room + 1, room + 4, usize::MAX] };
+    for c in caps {
         s(&[format!("open {}", c), l("rem"), w(c.min(room), 1), w(1, 0x55), l("init")]);
         s(&[format!("open {} {}", room, c), l("rem"), w(1, 1), l("init")]);
         s(&[format!("open {} {}", c, room + 1), l("rem"), w(1, 1), l("drop")]);
@@ -1374,6 +1528,9 @@ fn scripted(out: &mut dyn Write, kind: &str, cap: usize, len: usize) {
     s(&[l("setr empty"), l("read"), l("open"), l("read"), l("setr take 3 rep 09"), l("read"), l("read"), l("init")]);
     s(&[l("setr chain slice 0102 fail 0f"), l("open"), w(1, 0x31), l("read"), l("read"), l("read"), w(1, 0x32), l("init")]);
     s(&[l("setr chain slice 01 chain empty take 2 rep 05"), l("read 1"), l("read"), l("read"), l("read")]);
+    s(&[l("setr bufr 3 slice 0102030405060708"), l("read 1"), l("read"), l("read 2"), l("read"), l("read")]);
+    s(&[l("setr bufr 2 chain slice 010203 fail 0f"), l("open"), l("read 1"), l("read 1"), l("read"), l("read"), l("init")]);
+    s(&[l("setr bufr 0 rep 07"), l("read 2"), l("setr take 3 bufr 4 rep 08"), l("read 2"), l("read")]);
     s(&[format!("setr liar {} 0e", room), l("read")]);
     s(&[format!("setr liar {} 0e", room + 1), l("open"), w(1, 1), l("read")]);
     s(&[l("setr take 4 liar 5 0e"), l("read")]);
@@ -1400,23 +1557,77 @@ fn alphabet(kind: usize, room: usize) -> Vec<String> {
             l("init"),
             l("drop"),
         ],
-        // readers
-        _ => vec![
+        // honest readers
+        2 => vec![
             l("setr slice 31323334"),
             l("setr take 3 rep 41"),
             l("setr chain slice 51 fail 5f"),
-            l("setr liar 2 6e"),
+            l("setr bufr 2 slice 818283"),
             l("read"),
             l("read 1"),
             l("open"),
             l("w 71"),
             l("init"),
         ],
+        // over-claiming readers (refused by a panic that unwinds through the live views)
+        _ => vec![
+            l("setr liar 2 6e"),
+            l("setr take 3 liar 5 6f"),
+            l("setr chain slice 51 liar 9 6d"),
+            l("read"),
+            l("read 1"),
+            l("open"),
+            l("w 71"),
+            l("init"),
+            l("drop"),
+        ],
     }
+}
+
+/// Sessions in which a panic can unwind through live views (`xp`, `adv`, over-claiming readers) go
+/// last: if a broken library lets such an unwinding reach a destructor with a corrupt counter, std
+/// aborts the process, and whatever the same harness process reported before would be lost.  With
+/// the calm sessions first, the shards at the front keep their oracle reports.
+fn calm_first(all: &[u8]) -> Vec<u8> {
+    let text = String::from_utf8_lossy(all);
+    let mut units: Vec<(bool, String)> = vec![];
+    for line in text.lines() {
+        let start = line.starts_with("new ") || line.starts_with("hash ");
+        if start || units.is_empty() {
+            units.push((false, String::new()));
+        }
+        let u = units.last_mut().unwrap();
+        let t: Vec<&str> = line.split_ascii_whitespace().collect();
+        if t.iter().any(|x| *x == "xp" || *x == "adv" || *x == "liar") {
+            u.0 = true;
+        }
+        u.1.push_str(line);
+        u.1.push('\n');
+    }
+    let mut out = Vec::with_capacity(all.len());
+    for pass in [false, true] {
+        for (wild, body) in &units {
+            if *wild == pass {
+                out.extend_from_slice(body.as_bytes());
+            }
+        }
+    }
+    out
 }
 
 impl Domain for D {
     fn gen(&self, tier: &str, seed: u64, out: &mut dyn Write) {
+        let mut all: Vec<u8> = vec![];
+        self.gen_all(tier, seed, &mut all);
+        out.write_all(&calm_first(&all)).unwrap();
+    }
+    fn runner(&self) -> Box<dyn Runner> {
+        Box::new(R { sess: None })
+    }
+}
+
+impl D {
+    fn gen_all(&self, tier: &str, seed: u64, out: &mut dyn Write) {
         let mut r = Rng::new(seed ^ 0xc19_b0ff);
         let miri = tier == "miri";
         let thorough = tier == "thorough";
@@ -1436,13 +1647,20 @@ impl Domain for D {
         };
         for kind in KINDS {
             for &(cap, len) in &shapes {
-                if (kind == "slice" || kind == "sref") && len != 0 {
+                if is_slicey(kind) && len != 0 {
                     continue;
                 }
+                // Miri: (0,0) and (4,1) for the vectors; 4 bytes for the slice kinds, 0 bytes only for `slice`
                 if miri && (kind == "vec" || kind == "arr") && (cap, len) == (4, 0) {
                     continue;
                 }
-                scripted(out, kind, cap, len);
+                if miri && (kind == "sref" || kind == "raw") && cap == 0 {
+                    continue;
+                }
+                if miri && kind == "arr" && cap == 0 {
+                    continue;
+                }
+                scripted(out, kind, cap, len, miri);
             }
         }
         // 2. exhaustive op sequences (hash form)
@@ -1451,13 +1669,13 @@ impl Domain for D {
             for kind in KINDS {
                 for cap in 0..=3usize {
                     for len in 0..=cap.min(2) {
-                        let sl = kind == "slice" || kind == "sref";
+                        let sl = is_slicey(kind);
                         if sl && len != 0 {
                             continue;
                         }
                         let room = if sl { cap } else { cap - len };
                         let old = if sl { pat(cap, 0xa0) } else { pat(len, 0xa0) };
-                        for a in 0..3 {
+                        for a in 0..4 {
                             let al = alphabet(a, room);
                             // thorough: length 5 for the richest shapes, 4 elsewhere
                             let l = if thorough { if cap == 2 || cap == 3 { lmax } else { lmax - 1 } } else { lmax };
@@ -1474,9 +1692,9 @@ impl Domain for D {
                 writeln!(out, "hash {} 2 {} 6 / {}", kind, to_hex(&old), alphabet(0, 1).join(" / ")).unwrap();
             }
             for i in 0..48 {
-                let kind = KINDS[i % 4];
+                let kind = KINDS[i % 5];
                 let cap = 1 + r.below(4) as usize;
-                let sl = kind == "slice" || kind == "sref";
+                let sl = is_slicey(kind);
                 let len = if sl { cap } else { r.below(cap as u64 + 1) as usize };
                 let room = if sl { cap } else { cap - len };
                 let mut al: Vec<String> = vec!["init".to_string(), "open".to_string()];
@@ -1497,14 +1715,11 @@ impl Domain for D {
             }
         }
         // 3. random sessions
-        let (n, nops) = if miri { (60, 12) } else if thorough { (60000, 30) } else { (1500, 24) };
+        let (n, nops) = if miri { (40, 12) } else if thorough { (60000, 30) } else { (1500, 24) };
         for i in 0..n {
             let max_cap = if i % 4 == 0 { 32 } else { 6 };
             let k = 4 + r.below(nops as u64) as usize;
             random_session(&mut r, out, max_cap, k);
         }
-    }
-    fn runner(&self) -> Box<dyn Runner> {
-        Box::new(R { sess: None })
     }
 }
